@@ -199,10 +199,11 @@ for _p in ("C04", "C06", "C07", "C08", "C09", "C15", "C18"):
 
 PROPS["C19"] = dict(
     pkg="./props/c19_leaks",
-    tests=[REGRESS(), T("TestLeaks", (8, 150), (16, 3000))],
+    tests=[REGRESS(), T("TestLeaks", (8, 150), (16, 3000)), T("TestKnownFindingD12", (1, 0), (1, 0))],
     prefer_json_replay=True,
     rule="rapid-generated scenarios, each repeated 5..40 times in a row: core executions through stacks of {retry with and without backoff delays, firing and never-firing timeouts, real hedging with default and custom cancel conditions, 1 h hedge, fallback, 1 h bulkhead and limiter waits} run sync / async / async without ever reading the result, with functions that last 0..600 us or until cancelled, ended by success, failure, timeout, context cancellation or ExecutionResult.Cancel; HTTP calls through a private transport (retried statuses, hedged losers, merged request/executor contexts, bodies read or not); gRPC interceptor calls with merged contexts; composition scenarios of the C01 generator; after everything returned and idle connections were closed, and while the caller's contexts are still alive, a goroutine dump is polled for up to 30 s: no goroutine may keep a frame of the module or of an HTTP client connection, and the goroutine count may not have grown; non-trivial = the scenario started a policy goroutine or timer (hedge, timeout, async runner, delay, merged context, retried response); distinct = the scenario",
     assumptions=["a timer that is left armed but whose firing has no observable effect is invisible to this oracle",
                  "the caller owns (and closes) the response it is handed, including the one carried by ExceededError",
-                 "scenarios run one after the other within a process, so leftovers are attributable"],
+                 "scenarios run one after the other within a process, so leftovers are attributable",
+                 "known finding D12 (child contexts of async executions / Timeout applications / hedge attempts are not released on the normal path; with a hand-written parent context each keeps a watcher goroutine) is excluded by construction: a hand-written executor context is only combined with stacks that derive no such child context; TestKnownFindingD12 reproduces it separately"],
 )
